@@ -658,10 +658,26 @@ class SimulatedBroker(Broker):
         """
         self.current_dt = dt
 
-        # Check every price mark before any position is modified, so
-        # that an update refused because of a negative price leaves
-        # all portfolios untouched
+        # Check every price mark and portfolio time before any position
+        # or order queue is modified, so that an update which is refused
+        # leaves all portfolios and their open orders untouched
+        exchange_open = self.exchange.is_open_at_datetime(self.current_dt)
         for portfolio in self.portfolios:
+            # An update earlier than the time of a portfolio that has
+            # positions to re-mark or orders to execute is refused
+            # before any open order is taken off its queue
+            if dt < self.portfolios[portfolio].current_dt and (
+                self.portfolios[portfolio].pos_handler.positions or (
+                    exchange_open and not self.open_orders[portfolio].empty()
+                )
+            ):
+                raise ValueError(
+                    'Update time %s is earlier than the current time %s of '
+                    'portfolio "%s". Cannot update its positions or execute '
+                    'its orders.' % (
+                        dt, self.portfolios[portfolio].current_dt, portfolio
+                    )
+                )
             for asset in self.portfolios[portfolio].pos_handler.positions:
                 mid_price = self.data_handler.get_asset_latest_mid_price(
                     dt, asset
